@@ -31,6 +31,10 @@ ATTR_TABLE = ATTR_TEXT + ["border_left", "border_right", "border_top", "border_b
                           "cell_justification", "cell_vertical_justification", "cell_nrow"]
 
 
+# border colours drawn for column headers / footnote / source: some are used by no other generator of this file
+BORDER_COLORS = ["red", "blue", "gold", "tomato", "steelblue", "darkgreen", "plum", "black", ""]
+
+
 # ----------------------------------------------------------------------------- serialisation
 
 def rat(x) -> str:
@@ -446,6 +450,23 @@ def decorate(rng, spec, info, *, rich=True):
         spec["footnote"]["text"] = rng.choice(["", []])
     if rng.random() < 0.03 and spec.get("title") is not None:
         spec["title"]["text"] = []
+    # border colours of column headers, footnote, source (collected since the repo fix of collect_document_colors):
+    # a colour of the pool (possibly used nowhere else in the document), "black" (index 0), "" (no \brdrcf)
+    hs = spec["headers"]
+    if isinstance(hs, list):
+        for h in hs:
+            if h is not None and rng.random() < 0.25:
+                nc = len(h.get("text") or [])
+                for f in rng.sample(["border_color_left", "border_color_right", "border_color_top",
+                                     "border_color_bottom", "border_color_first", "border_color_last"], rng.randint(1, 3)):
+                    h[f] = (rng.choice(BORDER_COLORS) if rng.random() < 0.6
+                            else [rng.choice(BORDER_COLORS) for _ in range(max(1, nc))])
+    for key in ("footnote", "source"):
+        c = spec.get(key)
+        if c is not None and rng.random() < 0.2:
+            for f in rng.sample(["border_color_left", "border_color_right", "border_color_bottom",
+                                 "border_color_first", "border_color_last"], rng.randint(1, 2)):
+                c[f] = rng.choice(BORDER_COLORS)
 
 
 def add_group_by(rng, spec, info):
